@@ -1,5 +1,7 @@
 mod commands;
 mod hooks;
+#[cfg(feature = "verif")]
+pub mod verif;
 
 use std::sync::Arc;
 use std::time::{SystemTime, UNIX_EPOCH};
